@@ -33,8 +33,14 @@ def parseKind : String → Option Kind
 def parseUnit : String → Option UnitK
   | "metre" => some .metre | "foot" => some .foot | "usFootDec" => some .usFootDec | "usFoot" => some .usFoot | _ => none
 
-def parseDatumK : String → Option DatumK
-  | "custom" => some .custom | "wgs84" => some .wgs84 | "nad83" => some .nad83 | _ => none
+/-- `custom`, `custom:<index into customDatumNames>`, `wgs84`, `nad83` -/
+def parseDatumK (t : String) : Option (DatumK × Nat) :=
+  match t.splitOn ":" with
+  | ["custom"] => some (.custom, 0)
+  | ["custom", n] => n.toNat?.map fun i => (.custom, i)
+  | ["wgs84"] => some (.wgs84, 0)
+  | ["nad83"] => some (.nad83, 0)
+  | _ => none
 
 def parseTw (t : String) : Option (Option (List Dec)) :=
   if t = "none" then some none else
@@ -42,16 +48,19 @@ def parseTw (t : String) : Option (Option (List Dec)) :=
 
 def parseStyle (t : String) : Style :=
   let h (c : Char) := t.toList.contains c
-  { esri := h 'e', auth := h 'a', spaces := h 's', axis := h 'x', k0key := h 'k', title := h 't' }
+  { esri := h 'e', auth := h 'a', spaces := h 's', axis := h 'x', k0key := h 'k', title := h 't',
+    unitPos := if h 'u' then 1 else if h 'm' then 2 else 0, projLast := h 'p', geogLast := h 'g', towgsFirst := h 'w',
+    authFirst := h 'f' }
 
 /-- the 15 description tokens + style -/
 def parseCrs (t : Tok) : Option (Crs × Style) :=
   match t with
   | [k, lat0, lat1, lat2, lon0, k0, fe, fn, feM, fnM, a, rf, tw, u, d, st] => do
-    pure ({ kind := ← parseKind k, lat0 := ← parseDecTok lat0, lat1 := ← parseDecTok lat1, lat2 := ← parseDecTok lat2,
+    let (dk, dn) ← parseDatumK d
+    pure ({ dname := dn, kind := ← parseKind k, lat0 := ← parseDecTok lat0, lat1 := ← parseDecTok lat1, lat2 := ← parseDecTok lat2,
             lon0 := ← parseDecTok lon0, k0 := ← parseDecTok k0, fe := ← parseDecTok fe, fn := ← parseDecTok fn,
             feM := ← parseDecTok feM, fnM := ← parseDecTok fnM, a := ← parseDecTok a, rf := ← parseDecTok rf,
-            towgs := ← parseTw tw, unit := ← parseUnit u, datum := ← parseDatumK d }, parseStyle st)
+            towgs := ← parseTw tw, unit := ← parseUnit u, datum := dk }, parseStyle st)
   | _ => none
 
 def prepLine (line : String) : String :=
@@ -267,6 +276,7 @@ def judgePair (lhs rhs : Tok) : String :=
   | none => "BAD crs"
   | some (c, st) =>
     let cls := s!"pair-{kindTag c.kind}-{unitTag c.unit}" ++ (if noShift c then "-noshift" else "") ++ (if st.esri then "-esri" else "")
+      ++ (if st.unitPos ≠ 0 || st.projLast || st.geogLast then "-reordered" else "") ++ (if c.dname ≠ 0 then "-nearname" else "")
     let p4 := toProj4 c st
     let w := toWkt c st
     match rhs with
